@@ -654,7 +654,7 @@ func variant(d doc, v string) {
 var alternatives = map[string][]any{
 	"version":             {"1.0.2", "1.0.4", "1.0.30", "1.0", " 1.0.3", "2.0.0", "v1.0.3"},
 	"pfcp.addr":           {"not a host!", "127.0.0.8:8805", "300.1.1.1", "a b", "http://x/"},
-	"pfcp.nodeID":         {"not a host!", "300.1.1.1", "1.2.3", "a b"},
+	"pfcp.nodeID":         {"not a host!", "300.1.1.1", "1.2.3", "a b", "::1", "2001:db8::1", "fe80::1", "::ffff:127.0.0.8"},
 	"pfcp.retransTimeout": {"0s", "abc", "1x"},
 	"pfcp.maxRetrans":     {256, -1, "many"},
 	"gtpu.forwarder":      {"gtp5gx", "xdp", "GTP5G", "gtp5g "},
@@ -800,7 +800,7 @@ func TestC20(t *testing.T) {
 
 	// coupled faults: the same value at two (or three) places that hold one and the same host in a valid document - every host
 	// string used anywhere, among them unresolvable names that are hosts by syntax; exhaustive
-	hostVals := []any{"upf.invalid", "no-such-host.invalid", "256.256.256.256", "12345", "localhost", "127.0.0.9", "not a host!", "300.1.1.1", "a b", "", "1.2.3"}
+	hostVals := []any{"::1", "2001:db8::7", "upf.invalid", "no-such-host.invalid", "256.256.256.256", "12345", "localhost", "127.0.0.9", "not a host!", "300.1.1.1", "a b", "", "1.2.3"}
 	hostLeaves := []string{"pfcp.addr", "pfcp.nodeID", "gtpu.ifList.0.addr"}
 	for _, hv := range hostVals {
 		for mask := 3; mask < 8; mask++ {
